@@ -29,8 +29,9 @@ func init() {
 
 // syncCache is a concurrency-safe user cache.
 type syncCache struct {
-	mu sync.Mutex
-	m  map[string]int
+	mu   sync.Mutex
+	m    map[string]int
+	sets map[int]int // value -> number of Set calls that stored it (only kept when non-nil)
 }
 
 func (c *syncCache) Get(k string) (int, bool) {
@@ -43,6 +44,9 @@ func (c *syncCache) Get(k string) (int, bool) {
 func (c *syncCache) Set(k string, v int) {
 	c.mu.Lock()
 	c.m[k] = v
+	if c.sets != nil {
+		c.sets[v]++
+	}
 	c.mu.Unlock()
 }
 
@@ -90,12 +94,18 @@ func buildC14(kinds []string, salt int) *c14Shared {
 	for _, k := range kinds {
 		switch k {
 		case "retry":
-			sh.pols = append(sh.pols, retrypolicy.Builder[int]().WithMaxRetries(2).
-				HandleErrors(errE1, errE2).HandleErrorTypes(valErr{}, &ptrErr{}).AbortOnErrorTypes(isE1{}).
-				WithDelayFunc(func(e failsafe.ExecutionAttempt[int]) time.Duration {
+			rb := retrypolicy.Builder[int]().WithMaxRetries(2).
+				HandleErrors(errE1, errE2).HandleErrorTypes(valErr{}, &ptrErr{}).AbortOnErrorTypes(isE1{})
+			// every source of delay the policy has, including the randomised ones (shared by all executions of the policy)
+			if salt%2 == 0 {
+				rb.WithDelayFunc(func(e failsafe.ExecutionAttempt[int]) time.Duration {
 					touchAttempt(e)
 					return time.Duration(e.Attempts()%3) * 20 * time.Microsecond
-				}).
+				}).WithJitter(15 * time.Microsecond)
+			} else {
+				rb.WithRandomDelay(10*time.Microsecond, 60*time.Microsecond).WithJitterFactor(0.25)
+			}
+			sh.pols = append(sh.pols, rb.
 				OnRetry(ev).OnFailure(ev).OnSuccess(ev).OnAbort(ev).OnRetriesExceeded(ev).
 				OnRetryScheduled(func(e failsafe.ExecutionScheduledEvent[int]) {
 					sh.events.Add(1)
